@@ -650,7 +650,7 @@ def op_expressions(ex, tier):
         label, op, fentry, how, cats = shape
         pcls = PROXY_CLASS[op]
         for W in proxies.WRAPPERS:
-            fassign = db.one(U, 'squids::SU_vector::assignProxy<squids::detail::%s, %s>' % (W, pcls))
+            fassign = proxies.assign_proxy_fn(db, W, pcls)
             dims = (2, 3) if tier == 'thorough' or W == 'AssignWrapper' else (3,)
             for d in dims:
                 # operand storage kinds
@@ -677,7 +677,7 @@ def op_expressions(ex, tier):
                             ex.explore('v %s %s' % (WSYM[W], label), U, fassign, setup, post_expr)
         # resizing between dimensions of equal parity (2->4, 3->5 and back): the released block passes the alignment
         # test of the other dimension's cache, so filing it under the wrong dimension becomes visible
-        fassign = db.one(U, 'squids::SU_vector::assignProxy<squids::detail::AssignWrapper, %s>' % pcls)
+        fassign = proxies.assign_proxy_fn(db, 'AssignWrapper', pcls)
         for d, td in ((4, 2), (5, 3), (2, 4)):
             bk = 'owned' if two_vec(how) else None
             def setup(w, shape=shape, d=d, td=td, bk=bk):
